@@ -659,12 +659,21 @@ def oracle(ctx, deep=False):
             out.append(f)
     noisy = sum(1 for c in cases if c['kind'] == 'align' and c.get('noise'))
     wide = sum(1 for c in cases if c['kind'] == 'align' and c.get('wide'))
+    kinds = {}
+    for c in cases:
+        ks = c.get('container') or []
+        for k in ([ks] if isinstance(ks, str) else ks):
+            kinds[k] = kinds.get(k, 0) + 1
+    frozen = sum(1 for c in cases if c.get('pose_readonly'))
     return {'evaluations': len(cases), 'failures': out, 'distinct_nontrivial': 0,
             'rule': 'align on random layouts (misalignment <= 30 deg / 3 m, 1-4 samples per axis/plane, 1-4 base stations, '
                     'a third of them with 20-30 deg and 2-3 m, %d with bounded noise, %d corpus cases first): rigid (1e-9), inputs untouched, flips resolved, equal to '
                     'ground truth / independently converged optimum (1e-5); %d layouts with any misalignment up to 180 deg '
                     'and mirrored: rigid, inputs untouched, flips resolved; scale_fixed_point and scale_diagonals against the '
-                    'generating factor; failures per class: %s' % (noisy, n_corpus, wide, seen),
+                    'generating factor; point arguments are handed over as %s (arrays = list of 1-D float64, view = non-contiguous '
+                    'view of a larger array, int = rounded: no exactness check), %d cases with read-only arrays inside the Pose '
+                    'objects, tuple/list sequences; every input is compared bit for bit (identity, dtype, strides, flags, bytes, '
+                    'base array of views) before/after; failures per class: %s' % (noisy, n_corpus, wide, kinds, frozen, seen),
             'samples': [{'kind': c['kind'], 'angle_deg': c.get('angle_deg'), 'n_bs': len(c['bs'])} for c in cases[n_corpus:n_corpus + 2]]}
 
 
